@@ -78,6 +78,17 @@ impl Monitor for C04 {
         for ev in ALL_EV {
             let voc = vocab(ev, thorough);
             let maxlen = if ev == Ev::I64 && !thorough { 5 } else { maxlen };
+            let ctx_maxlen = if thorough { 5 } else { 4 };
+            let mut contexts: Vec<&str> = vec!["abs({s})", "({s})", "2*({s})", "pow({s},1)", "pow(1,{s})"];
+            if crate::syntax::Func::Max.available(ev) {
+                contexts.extend(["max({s},0-999)", "min(999,{s})", "avg({s})", "med({s})", "median(0-999,{s},999)", "max({s})"]);
+            }
+            if has_floorceil_brackets(ev) {
+                contexts.extend(["⌊{s}⌋", "⌈{s}⌉"]);
+            }
+            if has_fact_mod(ev) {
+                contexts.push("mod({s},1000)");
+            }
             for len in 1..=maxlen {
                 let mut owned: Vec<Vec<usize>> = vec![];
                 let flush = |ctx: &mut Ctx, owned: &mut Vec<Vec<usize>>| {
@@ -108,6 +119,16 @@ impl Monitor for C04 {
                             let s = render_tokens(&full);
                             let case = Case::new(ev, "skeleton", &s, Val::zero(ev)).with_extra(&skeleton);
                             ctx.check(&case, &|c, st| self.judge(c, st));
+                            // the same skeleton as an item of every kind of list and inside every kind of
+                            // bracket: argument lists and brackets are parsed by code of their own (seeded
+                            // change C04-r9: `-3!` as the first thing in an aggregate's argument grouped as (-3)!)
+                            if asg == 0 && idx.len() <= ctx_maxlen {
+                                for c in &contexts {
+                                    let t = c.replace("{s}", &s);
+                                    let case = Case::new(ev, "skeleton-in-context", &t, Val::zero(ev)).with_extra(&format!("{} in {}", skeleton, c));
+                                    ctx.check(&case, &|c, st| self.judge(c, st));
+                                }
+                            }
                         }
                     }
                 };
@@ -207,7 +228,7 @@ impl Monitor for C04 {
         ]
     }
     fn floors(&self, t: Tier) -> Vec<(String, u64)> {
-        vec![("judged.skeleton".into(), t.pick(20_000, 200_000)), ("judged.chain".into(), t.pick(2_000, 30_000)), ("set:operator_pairs.f64".into(), 100), ("set:operator_pairs.i64".into(), 100), ("set:operator_pairs.decimal".into(), 60), ("set:operator_pairs.complex".into(), 40), ("set:operator_pairs.number".into(), 100)]
+        vec![("judged.skeleton".into(), t.pick(20_000, 200_000)), ("judged.skeleton-in-context".into(), t.pick(5_000, 50_000)), ("judged.chain".into(), t.pick(2_000, 30_000)), ("set:operator_pairs.f64".into(), 100), ("set:operator_pairs.i64".into(), 100), ("set:operator_pairs.decimal".into(), 60), ("set:operator_pairs.complex".into(), 40), ("set:operator_pairs.number".into(), 100)]
     }
     fn exhaustive(&self) -> bool {
         false
